@@ -76,6 +76,10 @@ def cases(tier, seed):
             out.append({"id": "%s/%d" % (name, i), "det": name, "seed": [seed, 1, i], "cost": cost})
     for i in range(n):
         out.append({"id": "MD3/%d" % i, "det": "MD3", "seed": [seed, 1, i], "cost": 1})
+    # two detectors of one class alive at the same time (class-level state would couple them)
+    for name in zoo.ALL:
+        for i in range(6 if tier == "quick" else 60):
+            out.append({"id": "pair/%s/%d" % (name, i), "det": name, "kind": "pair", "seed": [seed, 101, i], "cost": 3})
     if tier == "thorough":
         # extra workload: the repository's own suite with the domain / counter / tree contracts attached to the real classes
         out.append({"id": "repo_suite_under_contracts", "det": "SUITE", "seed": [seed], "cost": 200})
@@ -89,6 +93,8 @@ def targets(tier):
         t["drifts:" + name] = (8 if name == "PCACD" else 20) * k
         t["histories_3plus_epochs:" + name] = (2 if name == "PCACD" else 5) * k
     t["drifts:MD3"] = 10 * k
+    t["interleaved_pairs"] = 60 * k
+    t["interleaved_updates_compared"] = 8000 * k
     return t
 
 
@@ -191,6 +197,8 @@ def run_case(case, ctx):
         return run_suite(ctx)
     if name == "MD3":
         return run_md3(case, ctx)
+    if case.get("kind") == "pair":
+        return run_pair(case, ctx)
     rng = gen.rng_for(case["seed"], name)
     if "literal" in case:
         params = case["literal"]["params"]
@@ -277,6 +285,63 @@ def run_case(case, ctx):
     ctx.nontrivial = epochs >= 1 and updates_after_drift >= 1
     ctx.sample = {"detector": name, "params": params, "inputs": len(items), "drifts": epochs}
     ctx.digest = "%s-%s-%s" % (name, sorted((a, str(b)) for a, b in params.items()), case["seed"])
+
+
+def run_pair(case, ctx):
+    """two detectors of the same class, each with its own parameters and inputs, updated in turn: every output of each (state, counters,
+    recommendations, published statistics) must equal what it shows when it runs alone under the same per-call numpy seeds"""
+    name = case["det"]
+    rng = gen.rng_for(case["seed"], name, "pair")
+    key = case.get("seed_key", case["id"])
+    specs = []
+    for _ in range(2):
+        params = zoo.draw_params(name, rng)
+        items = zoo.workload(name, rng, params)[:260]
+        specs.append((params, items))
+
+    def step(det, j, i, item):
+        np.random.seed(rngtap.seed_for(key, j, i))
+        zoo.feed(det, name, item, first=(i == 0))
+        o = zoo.observe(det, name)
+        o["counters"] = list(zoo.counters(det))
+        o["recs"] = zoo.recs(det)
+        return o
+
+    solo = []
+    for j, (params, items) in enumerate(specs):
+        det = zoo.make(name, params)
+        tr = []
+        try:
+            for i, it in enumerate(items):
+                tr.append(step(det, j, i, it))
+        except ValueError as e:
+            if not (name == "CUSUM" and "Standard deviation is 0" in str(e)):
+                raise
+        solo.append(tr)
+    live = [zoo.make(name, p) for p, _ in specs]
+    pos = [0, 0]
+    chunk = int(rng.choice([1, 1, 3, 17]))
+    drifts = 0
+    while pos[0] < len(solo[0]) or pos[1] < len(solo[1]):
+        for j in (0, 1):
+            for _ in range(chunk):
+                if pos[j] >= len(solo[j]):
+                    break
+                got = step(live[j], j, pos[j], specs[j][1][pos[j]])
+                exp = solo[j][pos[j]]
+                ctx.count("interleaved_updates_compared")
+                bad = zoo.obs_equal(got, exp) if set(got) == set(exp) else "keys"
+                if bad is not None:
+                    ctx.violation("C01/%s/instances_not_independent" % name, "detector %d of two interleaved %s detectors, call %d: %s = %r, the same detector "
+                                  "running alone shows %r" % (j, name, pos[j], bad, got.get(bad), exp.get(bad)), detector=name,
+                                  params=[specs[0][0], specs[1][0]], chunk=chunk, step=pos[j])
+                    return
+                drifts += got.get("state") == "drift"
+                pos[j] += 1
+    ctx.count("interleaved_pairs")
+    ctx.nontrivial = drifts >= 1
+    ctx.sample = {"kind": "two interleaved detectors", "detector": name, "params": [specs[0][0], specs[1][0]], "chunk": chunk, "drifts": drifts}
+    ctx.digest = "pair-%s-%s" % (name, case["seed"])
 
 
 def run_md3(case, ctx):
